@@ -9,16 +9,15 @@ Open Scope Z_scope.
 
 (** ** redis.call means the same as the direct command (two code-shaped models proved equal)
 
-    For every database [d], instant [now], command name of the catalogue (58 commands of
-    the string / key / list / set / hash families) and argument list a script can pass
-    (valid UTF-8), outside the classes of [known] the executor answers the reply and leaves
-    the database that the direct handler does.  The classes: empty key (SET GET INCR
-    INCRBY), SET with GET / KEEPTTL / NX+XX, TYPE (status vs bulk: equal as Lua values,
-    [c12_parity_type]), DBSIZE / FLUSHDB with extra arguments.  (DECRBY i64::MIN, EXPIRE <= 0,
-    TTL and RENAMENX were classes until the repairs 64d6383 and e21bda2; they are now covered.) *)
+    For every database [d], instant [now], command name of the catalogue (58 commands of the string /
+    key / list / set / hash families) and EVERY argument list (arguments are bytes: binary safe since
+    a6ba253), outside [known] the executor answers the reply and leaves the database that the direct
+    handler does.  [known] is what the DIRECT handlers lack: they refuse the empty key for SET GET INCR
+    INCRBY (C01 empty-key) and SET has no GET / KEEPTTL option there; and TYPE (status vs bulk: equal as
+    Lua values, [c12_parity_type]).  DECRBY i64::MIN, EXPIRE <= 0, TTL, RENAMENX, SET NX+XX and the
+    arity of DBSIZE / FLUSHDB were classes until the repairs 64d6383 e21bda2 b212584 3909ba7. *)
 Theorem c12_parity :
   forall now d nm args,
-  forallb utf8_valid (nm :: args) = true ->
   In (upper nm) Exec.catalogue ->
   known now d (upper nm) args = false ->
   Some (exec_run now d (bulks (nm :: args)) None) = exec_db now d (upper nm) (bulks (nm :: args)) None.
@@ -36,7 +35,6 @@ Proof. exact parity_type_conv. Qed.
     direct reply pushed through the two conversions (an error: abort under call, nil under pcall) *)
 Theorem c12_call_same_as_direct :
   forall now d keys argv pc nm args r d',
-  forallb utf8_valid (nm :: args) = true ->
   In (upper nm) Exec.catalogue ->
   (* the database both paths work on: after the lazy expiry that precedes every command,
      sent directly or called from a script (bdd75e8) *)
@@ -44,7 +42,7 @@ Theorem c12_call_same_as_direct :
   known now d0 (upper nm) args = false ->
   exec_db now d0 (upper nm) (bulks (nm :: args)) None = Some (r, d') ->
   run_script now d keys argv (single_call pc (nm :: args)) =
-    (match resp_to_lua pc r with CVal v => lua_to_resp v | CErr => r_err end, d').
+    (match resp_to_lua pc r with CVal v => lua_to_resp v | CErr m => FError m end, d').
 Proof. exact call_same_as_direct. Qed.
 
 (** the classes are genuine: on each of them the two paths differ *)
@@ -56,14 +54,15 @@ Definition both (now : Z) (d : db) (l : list bytes) : (frame * db) * option (fra
 Example c12_parity_set_nx_xx :            (* since f4c6282 both paths refuse NX together with XX *)
   both 0 d_k [bs "SET"; bs "k"; bs "w"; bs "NX"; bs "XX"] = ((r_err, d_k), Some (r_err, d_k)).
 Proof. vm_compute. reflexivity. Qed.
-Example c12_parity_set_get_refuted :     (* SET k w GET: a syntax error when sent directly *)
+(** what only the executor has: SET .. GET and SET .. KEEPTTL (a syntax error when sent directly) *)
+Example c12_parity_set_get_only_in_scripts :
   fst (fst (both 0 d_k [bs "SET"; bs "k"; bs "w"; bs "GET"])) = FBulk (bs "v") /\
   snd (both 0 d_k [bs "SET"; bs "k"; bs "w"; bs "GET"]) = Some (r_err, d_k).
 Proof. vm_compute. split; reflexivity. Qed.
-Example c12_parity_set_keepttl_refuted : (* KEEPTTL is accepted and ignored: the deadline is dropped *)
+Example c12_set_keepttl_honoured :        (* since b212584 the deadline survives, and KEEPTTL with EX is refused *)
   e_exp (match get_entry (snd (fst (both 0 d_kt [bs "SET"; bs "k"; bs "w"; bs "KEEPTTL"]))) (bs "k") with
-         | Some e => e | None => {| e_val := VStr []; e_exp := Some 0 |} end) = None /\
-  snd (both 0 d_kt [bs "SET"; bs "k"; bs "w"; bs "KEEPTTL"]) = Some (r_err, d_kt).
+         | Some e => e | None => {| e_val := VStr []; e_exp := None |} end) = Some 100500 /\
+  fst (fst (both 0 d_kt [bs "SET"; bs "k"; bs "w"; bs "KEEPTTL"; bs "EX"; bs "5"])) = r_err.
 Proof. vm_compute. split; reflexivity. Qed.
 Example c12_parity_empty_key_refuted :
   fst (fst (both 0 empty_db [bs "SET"; []; bs "v"])) = r_ok /\
@@ -72,74 +71,81 @@ Proof. vm_compute. split; reflexivity. Qed.
 Example c12_parity_type_refuted :
   both 0 d_k [bs "TYPE"; bs "k"] = ((FBulk (bs "string"), d_k), Some (FSimple (bs "string"), d_k)).
 Proof. vm_compute. reflexivity. Qed.
-Example c12_parity_arity_refuted :
-  both 0 d_k [bs "DBSIZE"; bs "x"] = ((FInt 1, d_k), Some (r_err, d_k)).
+Example c12_parity_arity :                (* since 3909ba7 both paths refuse extra arguments *)
+  both 0 d_k [bs "DBSIZE"; bs "x"] = ((r_err, d_k), Some (r_err, d_k)).
 Proof. vm_compute. reflexivity. Qed.
-(** stream commands (modelled in the executor, not yet in the parity catalogue): XTRIM k MAXLEN ~ 1 is an
-    error through the executor and a trim when sent directly *)
+(** stream commands (modelled in the executor, tied by the twin histories, not yet in the parity catalogue):
+    since 0b05118 the option tails reach the direct handlers *)
 Definition d_x : db :=
   snd (h_xadd (snd (h_xadd empty_db (bulks [bs "XADD"; bs "x"; bs "1-1"; bs "f"; bs "v"]) None))
               (bulks [bs "XADD"; bs "x"; bs "2-1"; bs "f"; bs "v"]) None).
-Example c12_stream_options_refuted :
-  fst (fst (both 0 d_x [bs "XTRIM"; bs "x"; bs "MAXLEN"; bs "~"; bs "1"])) = r_err /\
-  option_map fst (snd (both 0 d_x [bs "XTRIM"; bs "x"; bs "MAXLEN"; bs "~"; bs "1"])) = Some (FInt 1).
-Proof. vm_compute. split; reflexivity. Qed.
+Example c12_stream_options :
+  option_map fst (Some (fst (both 0 d_x [bs "XTRIM"; bs "x"; bs "MAXLEN"; bs "~"; bs "1"]))) =
+  option_map fst (snd (both 0 d_x [bs "XTRIM"; bs "x"; bs "MAXLEN"; bs "~"; bs "1"])).
+Proof. vm_compute. reflexivity. Qed.
 
 (** non-vacuity: the hypotheses of [c12_parity] hold for an ordinary call *)
-Example c12_parity_applies :
-  forallb utf8_valid [bs "set"; bs "k"; bs "v"; bs "EX"; bs "10"] = true /\
-  In (upper (bs "set")) Exec.catalogue /\ known 0 d_k (upper (bs "set")) [bs "k"; bs "v"; bs "EX"; bs "10"] = false.
-Proof. split; [vm_compute; reflexivity|]. split; [vm_compute; tauto|vm_compute; reflexivity]. Qed.
+Example c12_parity_applies :               (* a binary value is fine *)
+  In (upper (bs "set")) Exec.catalogue /\ known 0 d_k (upper (bs "set")) [bs "k"; [0; 255]; bs "EX"; bs "10"] = false.
+Proof. split; [vm_compute; tauto|vm_compute; reflexivity]. Qed.
 
 (** ** the conversions
 
-    RESP -> Lua -> RESP gives the reply back unchanged EXACTLY on [conv_safe]: the null bulk;
-    bulk strings that lossy UTF-8 decoding leaves alone (every valid UTF-8 string); integers
-    that survive the trip through a double (every |i| < 2^53, and i64::MAX through the
-    saturating cast); non-empty arrays of such values without nil. *)
+    RESP -> Lua -> RESP gives the reply back unchanged EXACTLY on [conv_safe]: the null bulk; every
+    bulk string (bytes); integers that survive the trip through a double (every |i| < 2^53, and
+    i64::MAX through the saturating cast); under redis.pcall an error reply that carries an error code;
+    arrays - empty ones included - of such values without nil.  Outside it: the three classes
+    pinned by the repository's own tests (status reply -> bulk, nil inside an array cuts it; and in
+    the other direction false -> 0), what Lua numbers cannot carry, the null array. *)
 Theorem c12_conv_roundtrip :
-  forall pc f, conv_safe f = true <-> exists v, resp_to_lua pc f = CVal v /\ lua_to_resp v = f.
+  forall pc f, conv_safe pc f = true <-> exists v, resp_to_lua pc f = CVal v /\ lua_to_resp v = f.
 Proof. exact conv_exact. Qed.
 Theorem c12_conv_safe_leaves :
-  (forall b, utf8_valid b = true -> bulk_ok b = true) /\
-  (forall i, Z.abs i < two53 -> int_ok i = true) /\ int_ok i64_max = true.
-Proof. exact (conj bulk_ok_valid (conj int_ok_small int_ok_max)). Qed.
+  (forall i, Z.abs i < two53 -> int_ok i = true) /\ int_ok i64_max = true /\
+  (forall b, has_error_code b = true -> utf8_valid b = true -> err_ok b = true).
+Proof. exact (conj int_ok_small (conj int_ok_max err_ok_coded)). Qed.
 
 Definition back (pc : bool) (f : frame) : option frame :=
-  match resp_to_lua pc f with CVal v => Some (lua_to_resp v) | CErr => None end.
+  match resp_to_lua pc f with CVal v => Some (lua_to_resp v) | CErr _ => None end.
+(** the pinned classes (known_findings.json: open, cannot be repaired without editing a cargo test) *)
 Example c12_conv_status_refuted : back false (FSimple (bs "OK")) = Some (FBulk (bs "OK")).
 Proof. vm_compute. reflexivity. Qed.
 Example c12_conv_nil_truncates_refuted :   (* MGET a nokey c answers [a] *)
   back false (FArray [FBulk (bs "a"); FNullBulk; FBulk (bs "c")]) = Some (FArray [FBulk (bs "a")]).
 Proof. vm_compute. reflexivity. Qed.
-Example c12_conv_leading_nil_refuted : back false (FArray [FNullBulk; FBulk (bs "c")]) = Some FNullBulk.
-Proof. vm_compute. reflexivity. Qed.
-Example c12_conv_empty_array_refuted : back false (FArray []) = Some FNullBulk.
-Proof. vm_compute. reflexivity. Qed.
-Example c12_conv_null_array_refuted : back false FNullArray = Some FNullBulk.
-Proof. vm_compute. reflexivity. Qed.
-Example c12_conv_lossy_refuted : back false (FBulk [0; 255]) = Some (FBulk [0; 239; 191; 189]).
-Proof. vm_compute. reflexivity. Qed.
-Example c12_conv_big_int_refuted : back false (FInt 9007199254740993) = Some (FInt 9007199254740992).
-Proof. vm_compute. reflexivity. Qed.
-Example c12_conv_error_code_refuted :      (* call: the error class (WRONGTYPE, NOGROUP ..) is lost: the script layer answers ERR *)
-  back false r_wrongtype = None /\ back true r_wrongtype = Some FNullBulk.
-Proof. vm_compute. split; reflexivity. Qed.
 Example c12_conv_false_refuted : lua_to_resp (LBool false) = FInt 0.
 Proof. reflexivity. Qed.
-Example c12_conv_float_not_truncated : lua_to_resp (LNum false (bs "1") (bs "5")) = FBulk (bs "1.5").
+(** the rest of the complement *)
+Example c12_conv_null_array : back false FNullArray = Some FNullBulk.
 Proof. vm_compute. reflexivity. Qed.
+Example c12_conv_big_int : back false (FInt 9007199254740993) = Some (FInt 9007199254740992).
+Proof. vm_compute. reflexivity. Qed.
+(** repaired: empty arrays, binary bulks, error codes, pcall's error value, numbers *)
+Example c12_conv_repaired :
+  back false (FArray []) = Some (FArray []) /\ back false (FBulk [0; 255]) = Some (FBulk [0; 255]) /\
+  resp_to_lua false r_wrongtype = CErr (bs "WRONGTYPE") /\ back true r_wrongtype = Some r_wrongtype /\
+  lua_to_resp (LNum true (bs "1") (bs "5")) = FInt (-1) /\ lua_to_resp (LTable []) = FArray [].
+Proof. vm_compute. repeat split; reflexivity. Qed.
 Example c12_conv_safe_nonvacuous :
-  conv_safe (FArray [FBulk (bs "a"); FInt 9007199254740992; FArray [FInt (-1)]]) = true.
+  conv_safe true (FArray [FBulk [255]; FInt 9007199254740991; FArray []; FArray [FInt (-1); r_wrongtype]]) = true.
 Proof. vm_compute. reflexivity. Qed.
 
-(** ** call aborts, pcall continues, effects persist *)
+(** ** call aborts with the command's own error, pcall returns an error value and continues, effects persist *)
 Theorem c12_call_aborts :
-  forall now d keys argv pre args rest rt res d1 d2,
-  run_body now d keys argv [] pre = (Some res, d1) ->
-  call_cmd now d1 false (map (eval {| e_keys := keys; e_argv := argv; e_res := res |}) args) = (CErr, d2) ->
-  run_script now d keys argv {| s_body := pre ++ SCall false args :: rest; s_ret := rt |} = (r_err, d2).
+  forall now d keys argv pre args rest rt res d1 d2 m,
+  run_body now d keys argv [] pre = (BOk res, d1) ->
+  call_cmd now d1 false (map (eval {| e_keys := keys; e_argv := argv; e_res := res |}) args) = (CErr m, d2) ->
+  run_script now d keys argv {| s_body := pre ++ SCall false args :: rest; s_ret := rt |} = (FError m, d2).
 Proof. exact call_aborts. Qed.
+(** [m] is the failing command's own error: code and text (an error that starts with a code is kept as it is) *)
+Theorem c12_call_error_is_the_commands :
+  forall now d nm rest b d',
+  blocked (upper (utf8_lossy nm)) = false ->
+  exec_run now (fst (expire_before now d (upper nm) (map FBulk (nm :: rest)))) (map FBulk (nm :: rest)) None = (FError b, d') ->
+  call_cmd now d false (map LStr (nm :: rest)) = (CErr (fmt_err (utf8_lossy b)), d') /\
+  call_cmd now d true (map LStr (nm :: rest)) = (CVal (LErr (fmt_err (utf8_lossy b))), d') /\
+  (has_error_code b = true -> utf8_valid b = true -> fmt_err (utf8_lossy b) = b).
+Proof. exact call_error_is_the_commands. Qed.
 
 Theorem c12_pcall_continues :
   forall now d keys argv res args rest,
@@ -154,7 +160,7 @@ Definition abort_script : script :=
                 SCall false [EStr (bs "SET"); EStr (bs "k3"); EStr (bs "z")]];
      s_ret := RAll |}.
 Example c12_effects_persist :
-  run_script 0 empty_db [] [] abort_script = (r_err, set_value 0 empty_db (bs "k2") (VStr (bs "x")) None).
+  run_script 0 empty_db [] [] abort_script = (r_wrongtype, set_value 0 empty_db (bs "k2") (VStr (bs "x")) None).
 Proof. vm_compute. reflexivity. Qed.
 
 (** ** one script = one step of the server *)
@@ -170,14 +176,23 @@ Theorem c12_script_atomic :
   ((Z.to_nat dbi < length (s_dbs s))%nat -> get_db s' dbi = snd r).
 Proof. exact script_one_step. Qed.
 
-(** ** EVALSHA = EVAL of the cached source, in whatever database is selected (after the repair f97685e) *)
+(** ** EVALSHA = EVAL of the cached source, in whatever database is selected; EVALSHA after EVAL works *)
 Theorem c12_evalsha_eq_eval :
   forall t s c dbi ca nm sha nk rest src,
-  upper nm = bs "EVALSHA" -> utf8_valid sha = true -> alookup sha ca = Some src ->
+  upper nm = bs "EVALSHA" -> utf8_valid sha = true -> alookup (lower sha) ca = Some src ->
   let r1 := h_evalsha t s c dbi ca (FBulk nm :: FBulk sha :: nk :: rest) in
   let r2 := normal_command t s c dbi (FBulk (bs "EVAL") :: FBulk src :: nk :: rest) None in
   fst r1 = fst r2 /\ s_dbs (snd r1) = s_dbs (snd r2) /\ s_conns (snd r1) = s_conns (snd r2).
 Proof. exact evalsha_eq_eval. Qed.
+(** EVAL of a script that compiles and is not cached yet adds it under its digest; EVALSHA then finds it,
+    whatever the letter case of the digest *)
+Theorem c12_evalsha_after_eval :
+  forall ca nm src rest sha ca',
+  utf8_valid src = true -> compile src = CompYes ->
+  existsb (fun e => beq (snd e) src) ca = false ->
+  eval_caches ca (FBulk nm :: FBulk src :: rest) (Some (FBulk sha)) = Some ca' ->
+  is_sha sha = true /\ alookup (lower sha) ca' = Some src.
+Proof. exact evalsha_after_eval. Qed.
 
 Definition set_src : bytes :=
   bs "local r={}" ++ [10] ++ bs "r[1]=redis.call(""\083\069\084"",KEYS[1],ARGV[1])" ++ [10] ++ bs "return r[1]".
@@ -190,21 +205,22 @@ Example c12_evalsha_selected_db :        (* connection 1 has database 1 selected
   amem (bs "k") (d_data (get_db (snd r) 0)) = false /\ amem (bs "k") (d_data (get_db (snd r) 1)) = true.
 Proof. vm_compute. repeat split; reflexivity. Qed.
 
-(** ** KEYS and ARGV arrive byte-for-byte: for valid UTF-8; refuted otherwise *)
+(** ** KEYS, ARGV and the arguments of redis.call are bytes (a6ba253) *)
 Theorem c12_keys_bytes :
-  forall keys argv res i k, nth1 i keys = Some k -> utf8_valid k = true ->
+  forall keys argv res i k, nth1 i keys = Some k ->
   eval {| e_keys := keys; e_argv := argv; e_res := res |} (EKeys i) = LStr k.
 Proof. exact keys_bytes. Qed.
 Theorem c12_argv_bytes :
-  forall keys argv res i a, nth1 i argv = Some a -> utf8_valid a = true ->
+  forall keys argv res i a, nth1 i argv = Some a ->
   eval {| e_keys := keys; e_argv := argv; e_res := res |} (EArgv i) = LStr a.
 Proof. exact argv_bytes. Qed.
-Example c12_keys_argv_bytes_refuted :
-  eval {| e_keys := [[255; 107]]; e_argv := []; e_res := [] |} (EKeys 1) = LStr [239; 191; 189; 107].
-Proof. vm_compute. reflexivity. Qed.
-(** a byte string that is not UTF-8 cannot be passed to redis.call at all *)
-Example c12_binary_argument_refuted :
-  call_cmd 0 empty_db false [LStr (bs "SET"); LStr (bs "k"); LStr [255]] = (CErr, empty_db).
+Theorem c12_call_args_bytes :
+  forall en l, marshal_args (map (eval en) (map EStr l)) = Some l.
+Proof. exact call_args_bytes. Qed.
+Example c12_binary_round_trip :
+  fst (run_script 0 empty_db [[255; 107]] [[0; 254]]
+         {| s_body := [SCall false [EStr (bs "SET"); EKeys 1; EArgv 1]; SCall false [EStr (bs "GET"); EKeys 1]];
+            s_ret := RVal (ERes 2) |}) = FBulk [0; 254].
 Proof. vm_compute. reflexivity. Qed.
 
 (** ** sandbox (tables regenerated from lua_engine.rs on every run) *)
@@ -221,7 +237,7 @@ Theorem c12_blocked_superset :
 Proof. vm_compute. reflexivity. Qed.
 (** and a refused command never reaches the executor *)
 Theorem c12_blocked_no_effect :
-  forall now d pc nm rest, blocked (upper nm) = true -> utf8_valid nm = true ->
+  forall now d pc nm rest, blocked (upper (utf8_lossy nm)) = true ->
   snd (call_cmd now d pc (LStr nm :: rest)) = d.
 Proof. exact blocked_no_effect. Qed.
 (** loadstring stays reachable (it compiles Lua text only; no file or process access) *)
